@@ -52,7 +52,7 @@ def algRunForks (a b : Raw K Unit) : List AlgIt → SM K Unit Q (List (RV K Unit
     let rest ← algRunForks a b fs
     pure (RV.list (x.map algItemRV) :: rest)
 
-def algScript (dbg : K → String) (a b : Raw K Unit) :
+def algScript (dbg : Bool → K → String) (a b : Raw K Unit) :
     List IterCmd → AlgIt → List AlgIt → SM K Unit Q (List (RV K Unit))
   | [], _, forks => algRunForks E a b forks
   | c :: cs, it, forks => do
@@ -67,11 +67,11 @@ def algScript (dbg : K → String) (a b : Raw K Unit) :
     | .len => algScript dbg a b cs it forks       -- not ExactSizeIterator
     | .debug =>
       let l ← algRunOut E a b (a.len + b.len + 1) it
-      pure (RV.str (StdFmt.debugList false (l.map fun x => dbg x.2.2)) ::
+      pure (RV.str (StdFmt.debugList false (l.map fun x => dbg false x.2.2)) ::
         (← algScript dbg a b cs it forks))
     | .debugAlt =>
       let l ← algRunOut E a b (a.len + b.len + 1) it
-      pure (RV.str (StdFmt.debugList true (l.map fun x => dbg x.2.2)) ::
+      pure (RV.str (StdFmt.debugList true (l.map fun x => dbg true x.2.2)) ::
         (← algScript dbg a b cs it forks))
     | .clone => algScript dbg a b cs it (forks ++ [it])
     | .count =>
@@ -81,7 +81,7 @@ def algScript (dbg : K → String) (a b : Raw K Unit) :
       let l ← algFold E a b it
       pure (RV.list (l.map algItemRV) :: (← algScript dbg a b [] it forks))
 
-def algOp (dbg : K → String) (kind : AlgKind) (a b : Raw K Unit) (script : List IterCmd) :
+def algOp (dbg : Bool → K → String) (kind : AlgKind) (a b : Raw K Unit) (script : List IterCmd) :
     SM K Unit Q (List (RV K Unit)) := do
   let it ← algStart a b kind
   algScript E dbg a b script it []
@@ -113,10 +113,10 @@ def fmtSet (R : Render K Unit) (kind : FmtKind) : SM K Unit Q String := do
   let s ← getS
   let l ← entriesOf s.r
   match kind with
-  | .debug => pure (StdFmt.debugSet false (l.map fun p => R.dbgK p.1))
-  | .debugAlt => pure (StdFmt.debugSet true (l.map fun p => R.dbgK p.1))
+  | .debug => pure (StdFmt.debugSet false (l.map fun p => R.dbgK false p.1))
+  | .debugAlt => pure (StdFmt.debugSet true (l.map fun p => R.dbgK true p.1))
   | .display | .displayPad | .displayAlt => pure (displaySetCode R.dspK l)
-  | .debugPad => pure (StdFmt.debugSet false (l.map fun p => R.dbgK p.1))
+  | .debugPad => pure (StdFmt.debugSet false (l.map fun p => R.dbgK false p.1))
 
 /-- one set operation on register state `s.r`. -/
 def stepSetOp (R : Render K Unit) (other : Nat → Raw K Unit) : SetOp K Q → SM K Unit Q (RV K Unit)
@@ -181,7 +181,7 @@ section
 variable {K V Q : Type} (E : Env K V Q) (R : Render K V)
 
 def Render.toUnit (R : Render K V) : Render K Unit :=
-  { dbgK := R.dbgK, dbgV := fun _ => "()", dspK := R.dspK, dspV := fun _ => "()" }
+  { dbgK := R.dbgK, dbgV := fun _ _ => "()", dspK := R.dspK, dspV := fun _ => "()" }
 
 def Sys.init (capM capS : Nat → Nat) (w : World K V Q) : Sys K V Q :=
   { maps := fun i => Raw.new (capM i), sets := fun i => Raw.new (capS i), w := w }
